@@ -8,9 +8,14 @@ ID = "C14"
 PROPS_FILE = "theories/Props/C14.v"
 EXTRACT = ("theories/Extract/XC14.v", "c14",
            ["entry_mec_ok", "entry_chrystal_many", "entry_sweep_many", "entry_feret_max", "entry_feret_min_ok", "entry_feret_lower_ok",
-            "entry_fill_model", "entry_fill_check", "entry_fill_hyp"])
+            "entry_fill_model", "entry_fill_check", "entry_fill_hyp", "entry_chrystal_hyp_many", "entry_chrystal_vec"])
 PYX = {}
-RULE = ("label images of 1-20 objects drawn from: single pixel, two pixels, collinear runs (horizontal, vertical, "
+RULE = ("ROUND 2 additions: 40 % of the cases as dtype/layout variants (label image int8..int64, uint8..uint64; C, Fortran, "
+        "strided view, read-only; index list as list, tuple or array of any integer dtype; hull array int16/int32/int64 in "
+        "the same four layouts); 300-420 objects in one call; 1-3 x N images up to N = 3000; consecutive labels sharing scan "
+        "rows; point sets with coordinates up to 32 000 through convex_hull_ijv; every function is called twice on the same "
+        "arrays and must repeat its answer; all cases of a run execute in one worker process. "
+        "label images of 1-20 objects drawn from: single pixel, two pixels, collinear runs (horizontal, vertical, "
         "diagonal, slope 1/s), squares and rectangles (co-circular corners), right and random lattice triangles, thin "
         "diagonals, discs/ellipses, sparse point sets, smooth blobs, per-pixel random labels (interleaved objects); "
         "a fifth of the images shifted by up to 60 rows/columns; index lists permuted, with omitted and absent labels; hull rows passed as produced by convex_hull, with each "
@@ -25,7 +30,12 @@ TRUSTED = [
     "Python proposes the MEC certificate (support points, weights, exact circle) and the exact width; only the extracted "
     "verified checkers accept it",
 ]
-ASSUMPTIONS = ["pixel coordinates are small non-negative integers (< 2^15), so integer products are exact in float64",
+ASSUMPTIONS = ["squared object diameter < 2^31 (feret_diameter squares coordinate differences in the hull's own int32): "
+               "coordinates are generated up to 32 000 (diagonal 45 254 < 46 341); above diameter 9 741 the float cross "
+               "products squared exceed 2^53 and are rounded, results are still compared against the exact values",
+               "hull arrays keep a signed integer type wide enough for squared coordinate differences (int32 as produced by "
+               "convex_hull, int64, int16 only for extents <= 120); unsigned or narrower hull arrays give wrong results "
+               "(findings/C14.json, candidate)",
                "index lists hold distinct positive labels, at least one of them present in the image"]
 EXHAUSTIVE = {"quick": False, "thorough": False}
 CASE_TIMEOUT = 30
@@ -177,7 +187,162 @@ def _case(ctx, rng, max_objs=20):
         ctx.count("object:" + c)
     ctx.count("order:" + order)
     ctx.count("objects_per_call:%s" % ("1" if len(idx) == 1 else "2-5" if len(idx) <= 5 else "6+"))
-    return {"labels": lab.tolist(), "indexes": [int(x) for x in idx], "order": order, "rot": rot}
+    case = {"labels": lab.tolist(), "indexes": [int(x) for x in idx], "order": order, "rot": rot}
+    _variant(ctx, rng, case, int(lab.max()), max(lab.shape))
+    return case
+
+
+LABEL_DTYPES = ["int8", "int16", "int32", "int64", "uint8", "uint16", "uint32", "uint64"]
+LAYOUTS = ["C", "F", "strided", "readonly"]
+# diameter^2 must stay below 2^31: feret_diameter forms (pt1 - pt2) ** 2 in the hull's int32
+COORD_MAX = 32000          # diagonal 45 254 < 46 341 = ceil(sqrt(2^31))
+
+
+def _variant(ctx, rng, case, top_label, extent):
+    """dtype / memory-layout / container variants of the same mathematical input (40 % of the cases)"""
+    if rng.rand() < 0.6:
+        return
+    ok = [d for d in LABEL_DTYPES if top_label + 1 <= np.iinfo(d).max]
+    case["ldtype"] = str(rng.choice(ok))
+    case["llayout"] = str(rng.choice(LAYOUTS))
+    case["idx_kind"] = str(rng.choice(["list", "tuple"] + ok))
+    # hull arrays: signed types wide enough for the code's own squared differences
+    hd = ["int32", "int64"] + (["int16"] if extent <= 120 else [])
+    case["hdtype"] = str(rng.choice(hd))
+    case["hlayout"] = str(rng.choice(LAYOUTS))
+    ctx.count("variant:labels:%s/%s" % (case["ldtype"], case["llayout"]))
+    ctx.count("variant:hull:%s/%s" % (case["hdtype"], case["hlayout"]))
+    ctx.count("variant:indexes:%s" % case["idx_kind"])
+
+
+def _many_objects(ctx, rng):
+    """300-420 tiny objects in one vectorised call"""
+    k = int(rng.randint(300, 421))
+    cols = int(rng.randint(15, 26))
+    rows = (k + cols - 1) // cols
+    lab = np.zeros((rows * 3, cols * 3), int)
+    pool = rng.permutation(np.arange(1, k + 30))[:k]
+    for q in range(k):
+        r, c = divmod(q, cols)
+        m = rng.rand(3, 3) < rng.choice([0.2, 0.5, 0.9])
+        if rng.rand() < 0.3:
+            m[:, 2] = False
+            m[2, :] = False
+        if not m.any():
+            m[rng.randint(3), rng.randint(3)] = True
+        lab[r * 3:r * 3 + 3, c * 3:c * 3 + 3][m] = pool[q]
+    idx = [int(x) for x in rng.permutation(pool)]
+    ctx.count("class:many_objects")
+    case = {"labels": lab.tolist(), "indexes": idx, "order": str(rng.choice(["fwd", "rev", "rot"])),
+            "rot": [int(rng.randint(0, 8)) for _ in idx]}
+    _variant(ctx, rng, case, int(lab.max()), max(lab.shape))
+    return case
+
+
+def _thin_long(ctx, rng):
+    """1 x N, 2 x N, 3 x N images (and transposes), N up to 3000: single-row / single-column objects,
+    very flat hulls"""
+    tall = rng.rand() < 0.5
+    # a tall image makes one scan-line entry per row and edge: the model's insertion sort is quadratic in them
+    n = int(rng.choice([50, 200, 400])) if tall else int(rng.choice([50, 300, 1000, 3000]))
+    w = int(rng.randint(1, 4))
+    lab = np.zeros((w, n), int)
+    k = int(rng.randint(1, 9))
+    cuts = np.sort(rng.choice(np.arange(1, n), size=min(k, n - 1), replace=False)).tolist() + [n]
+    a = 0
+    labs = rng.permutation(np.arange(1, len(cuts) + 3))[:len(cuts)]
+    for q, b in enumerate(cuts):
+        seg = lab[:, a:b]
+        u = rng.rand()
+        small = seg.size <= 300           # the exact all-pairs maximum is quadratic in the pixel count
+        if u < 0.3 and small:
+            seg[rng.randint(w), :] = labs[q]                      # one full row of the segment
+        elif u < 0.6 and small:
+            seg[:] = labs[q]
+        else:
+            m = rng.rand(*seg.shape) < min(1.0, rng.choice([3.0, 20.0, 120.0]) / seg.size)
+            m[rng.randint(w), 0] = m[rng.randint(w), -1] = True   # spans the whole segment
+            seg[m] = labs[q]
+        a = b
+    if tall:
+        lab = lab.T.copy()
+    present = [int(x) for x in np.unique(lab) if x]
+    if not present:
+        lab[0, 0] = 1
+        present = [1]
+    rng.shuffle(present)
+    ctx.count("class:thin_long_image")
+    case = {"labels": lab.tolist(), "indexes": present, "order": str(rng.choice(["fwd", "rev", "rot"])),
+            "rot": [int(rng.randint(0, 8)) for _ in present]}
+    _variant(ctx, rng, case, int(lab.max()), max(lab.shape))
+    return case
+
+
+def _shared_rows(ctx, rng):
+    """consecutive labels whose last scan line is on the same image row as the next label's first one
+    (and objects side by side on exactly the same rows)"""
+    k = int(rng.randint(2, 9))
+    hs = rng.randint(1, 6, k)
+    ws = rng.randint(1, 6, k)
+    lab = np.zeros((int(hs.sum()) + 2, int(ws.sum()) + k + 2), int)
+    i = j = 0
+    first = int(rng.randint(1, 5))
+    for q in range(k):
+        m, _ = _obj(rng)
+        m = m[:hs[q] + 1, :ws[q] + 1]
+        if not m[0].any():
+            m[0, 0] = True
+        if not m[-1].any():
+            m[-1, -1] = True
+        lab[i:i + m.shape[0], j:j + m.shape[1]][m] = first + q
+        # the next object starts on this object's LAST row (or, sometimes, on its first row)
+        i = i + (m.shape[0] - 1 if rng.rand() < 0.75 else 0)
+        j = j + m.shape[1] + int(rng.randint(0, 2))
+        if i + 7 > lab.shape[0] or j + 7 > lab.shape[1]:
+            lab = np.pad(lab, ((0, 8), (0, 8)))
+    idx = [int(x) for x in np.unique(lab) if x]
+    if rng.rand() < 0.4:
+        rng.shuffle(idx)
+    ctx.count("class:shared_rows")
+    case = {"labels": lab.tolist(), "indexes": idx, "order": str(rng.choice(["fwd", "rev", "rot"])),
+            "rot": [int(rng.randint(0, 8)) for _ in idx]}
+    _variant(ctx, rng, case, int(lab.max()), max(lab.shape))
+    return case
+
+
+def _big_coords(ctx, rng):
+    """objects given as (i, j, label) rows to convex_hull_ijv with coordinates up to COORD_MAX, so that
+    squared distances approach 2^31 and cross products exceed 2^31"""
+    k = int(rng.randint(1, 5))
+    rows = []
+    labs = rng.permutation(np.arange(1, k + 3))[:k]
+    scale = int(rng.choice([2000, 9000, COORD_MAX]))
+    for l in labs:
+        u = rng.rand()
+        oi, oj = 0, 0
+        if u < 0.3:
+            a, b = rng.randint(scale // 2, scale + 1, 2)
+            pts = [(0, 0), (0, b), (a, b), (a, 0)] + [(rng.randint(0, a + 1), rng.randint(0, b + 1)) for _ in range(rng.randint(0, 4))]
+        elif u < 0.5:
+            a = rng.randint(scale // 2, scale + 1)                  # right / isosceles triangles, thin slivers
+            pts = [(0, 0), (a, 0), (0, int(rng.choice([1, 2, a // 2, a])))] + [(1, 0)]
+        elif u < 0.65:
+            a = rng.randint(2, scale + 1)
+            pts = [(t * (a // 4), t * (a // 4) if rng.rand() < 0.5 else 0) for t in range(4)]      # collinear
+        else:
+            n = rng.randint(1, 10)
+            pts = [(rng.randint(0, scale + 1), rng.randint(0, scale + 1)) for _ in range(n)]
+        for p in set((int(a_), int(b_)) for a_, b_ in pts):
+            rows.append([p[0], p[1], int(l)])
+    idx = [int(x) for x in rng.permutation(labs)]
+    ctx.count("class:big_coordinates<=%d" % scale)
+    case = {"ijv": rows, "labels": [[0]], "indexes": idx, "order": str(rng.choice(["fwd", "rev", "rot"])),
+            "rot": [int(rng.randint(0, 8)) for _ in idx]}
+    if rng.rand() < 0.4:
+        case["idx_kind"] = str(rng.choice(["list", "tuple", "int16", "int32", "int64", "uint8", "uint32"]))
+        case["hdtype"] = str(rng.choice(["int32", "int64"]))
+        case["hlayout"] = str(rng.choice(LAYOUTS))
+    return case
 
 
 def _corpus():
@@ -211,8 +376,17 @@ def generate(ctx):
                 with open(os.path.join(cdir, name)) as f:
                     d = json.load(f)
                 cases.extend(d if isinstance(d, list) else [d])
-    for _ in range(ctx.n(2000, 30000)):
-        cases.append(_case(ctx, ctx.rng))
+    rng = ctx.rng
+    for _ in range(ctx.n(1200, 22000)):
+        cases.append(_case(ctx, rng))
+    for _ in range(ctx.n(6, 60)):
+        cases.append(_many_objects(ctx, rng))
+    for _ in range(ctx.n(40, 700)):
+        cases.append(_thin_long(ctx, rng))
+    for _ in range(ctx.n(120, 2000)):
+        cases.append(_shared_rows(ctx, rng))
+    for _ in range(ctx.n(150, 2500)):
+        cases.append(_big_coords(ctx, rng))
     return cases
 
 
@@ -229,12 +403,30 @@ def impl(case):
     if _TIMEOUTS[0] >= 3:
         # three calls already hung in this worker: do not spend FN_TIMEOUT on each remaining case
         return {"skipped": "after repeated timeouts"}
-    lab = np.array(case["labels"], int)
+    def lay(a, how):
+        if how == "F":
+            return np.asfortranarray(a)
+        if how == "strided":
+            big = np.zeros(tuple(2 * d for d in a.shape), a.dtype)
+            big[(slice(None, None, 2),) * a.ndim] = a
+            return big[(slice(None, None, 2),) * a.ndim]
+        if how == "readonly":
+            a = a.copy()
+            a.flags.writeable = False
+        return a
+
+    lab = lay(np.array(case["labels"], case.get("ldtype", "int64")), case.get("llayout", "C"))
+    ik = case.get("idx_kind", "list")
     idx = list(case["indexes"])
-    hull, cnt = M.convex_hull(lab, idx)
+    idx = idx if ik == "list" else tuple(idx) if ik == "tuple" else np.array(idx, ik)
+    if "ijv" in case:
+        hull, cnt = M.convex_hull_ijv(np.array(case["ijv"], np.int32).reshape(-1, 3), np.array(case["indexes"]))
+    else:
+        hull, cnt = M.convex_hull(lab, idx)
     hull = np.asarray(hull)
     cnt = np.asarray(cnt)
     order = case["order"]
+    variant = "hdtype" in case or "ijv" in case
     if order != "fwd" and len(hull):
         parts = []
         off = 0
@@ -249,12 +441,18 @@ def impl(case):
                     blk = np.vstack([blk[r:], blk[:r]])
             parts.append(blk)
         hull = np.ascontiguousarray(np.vstack(parts)).astype(hull.dtype)
+    if "hdtype" in case and len(hull):
+        hull = lay(hull.astype(case["hdtype"]), case.get("hlayout", "C"))
     out = {"hull": hull.tolist(), "cnt": cnt.tolist()}
+    twice = {}
 
     def guard(name, f):
         try:
             signal.alarm(FN_TIMEOUT)     # handler installed by harness.worker raises TimeoutError
             out[name] = f()
+            # the same call again on the very same arrays: no state between calls, no input mutation
+            if f() != out[name]:
+                twice[name] = True
         except Exception as e:      # noqa: an exception of one function must not hide the others
             if isinstance(e, TimeoutError):
                 _TIMEOUTS[0] += 1
@@ -263,24 +461,38 @@ def impl(case):
             signal.alarm(0)
 
     def mec():
-        if order == "fwd":
+        if order == "fwd" and not variant:
             c, r = M.minimum_enclosing_circle(lab, idx)
         else:
-            c, r = M.minimum_enclosing_circle(lab, idx, (hull.copy(), cnt.copy()))
+            c, r = M.minimum_enclosing_circle(lab, idx, (hull, cnt))
         c = np.asarray(c, float).reshape(-1, 2)
         return {"cy": _clean(c[:, 0]), "cx": _clean(c[:, 1]), "r": _clean(r)}
 
     def feret():
-        mn, mx = M.feret_diameter(hull.copy(), cnt.copy(), np.array(idx))
+        mn, mx = M.feret_diameter(hull, cnt, idx if ik not in ("list", "tuple") else np.array(idx))
         return {"min": _clean(mn), "max": _clean(mx)}
 
     def fill():
-        ijv = M.fill_convex_hulls(hull.copy(), cnt.copy())
+        if len(hull) and "ijv" in case:
+            # rows = area of the polygons: only filled when the bounding boxes stay small
+            area = rows_ = 0
+            off = 0
+            for c in cnt.tolist():
+                b = hull[off:off + c, 1:].astype(np.int64)
+                off += c
+                if c:
+                    area += int((b[:, 0].max() - b[:, 0].min() + 1) * (b[:, 1].max() - b[:, 1].min() + 1))
+                    rows_ += int(b[:, 0].max() - b[:, 0].min() + 1)
+            if area > 40000 or rows_ > 1500:      # (the model sorts one entry per edge and row by insertion)
+                return "not-run"
+        ijv = M.fill_convex_hulls(hull, cnt)
         return np.asarray(ijv).astype(int).tolist()
 
     guard("mec", mec)
     guard("feret", feret)
     guard("fill", fill)
+    if twice:
+        out["twice_differs"] = sorted(twice)
     return out
 
 
@@ -305,7 +517,10 @@ def _objects(case, out):
         c = out["cnt"][k]
         h = [[r[1], r[2]] for r in out["hull"][off:off + c]]
         off += c
-        pix = np.argwhere(lab == l).tolist()
+        if "ijv" in case:
+            pix = sorted([r[0], r[1]] for r in case["ijv"] if r[2] == l)
+        else:
+            pix = np.argwhere(lab == l).tolist()
         res.append((l, pix, h))
     return res
 
@@ -382,18 +597,46 @@ def _certificate(pix, cy, cx, r):
 # ------------------------------------------------------------------------------------ model + compare
 
 def model(ctx, cases, outs):
+    import time as _t
+    _orig = ctx.run_model
+
+    def _timed(entry, args):
+        t0 = _t.time()
+        r = _orig(entry, args)
+        ctx.timings["model:" + entry] = round(ctx.timings.get("model:" + entry, 0) + _t.time() - t0, 1)
+        return r
+    ctx.run_model = _timed
+    try:
+        return _model(ctx, cases, outs)
+    finally:
+        ctx.run_model = _orig
+
+
+def _model(ctx, cases, outs):
     res = [None] * len(cases)
     ok = [k for k in range(len(cases)) if not _bad(outs[k])]
     objs = {k: _objects(cases[k], outs[k]) for k in ok}
     hulls = [[h for (_, _, h) in objs[k]] for k in ok]
     ch = ctx.run_model("entry_chrystal_many", hulls)
+    for hy, hs in zip(ctx.run_model("entry_chrystal_hyp_many", hulls), hulls):
+        for r, h in zip(hy, hs):
+            if h:   # hypothesis of theorem C14_chrystal_reaches_certificate on this run's hull lists
+                ctx.count("chrystal_hypothesis_holds" if r == 1 else "chrystal_hypothesis_FAILS(hull not strict / first edge)")
     sw = ctx.run_model("entry_sweep_many", hulls)
-    fl = ctx.run_model("entry_fill_model", [[[l, h] for (l, _, h) in objs[k] if h] for k in ok])
+    fl = ctx.run_model("entry_fill_model", [[[l, h] for (l, _, h) in objs[k] if h] if outs[k]["fill"] != "not-run" else []
+                                            for k in ok])
     # brute force on the same vertex lists, next to the sweep: a disagreement refutes calipers = brute force
     flat = [h for hs in hulls for h in hs if len(h) >= 1]
     bf = iter(ctx.run_model("entry_feret_max", flat)) if flat else iter([])
-    for k, r, w, f, hs in zip(ok, ch, sw, fl, hulls):
-        res[k] = {"mec": r, "sweep": w, "fill": f, "bf_max": [next(bf) if len(h) >= 1 else 0 for h in hs]}
+    # the vectorised bookkeeping model (global arrays, all objects of the call together)
+    # (list-based global arrays: cost ~ objects x rows^2 per pass, so very large calls are left to the per-object model)
+    cheap = [len(hs) * sum(len(h) for h in hs) ** 2 <= 2 * 10 ** 7 for hs in hulls]
+    ctx.count("vectorised_model_compared", sum(cheap))
+    ctx.count("vectorised_model_skipped_large_call", len(cheap) - sum(cheap))
+    vr = iter(ctx.run_model("entry_chrystal_vec", [[cases[k]["indexes"], hs] for k, hs, c in zip(ok, hulls, cheap) if c]))
+    vec = [next(vr) if c else None for c in cheap]
+    for k, r, w, f, hs, v in zip(ok, ch, sw, fl, hulls, vec):
+        res[k] = {"mec": r, "mec_vec": v, "sweep": w, "fill": f, "bf_max": [next(bf) if len(h) >= 1 else 0 for h in hs]}
     return res
 
 
@@ -411,6 +654,8 @@ def compare(case, out, m):
     mec = out["mec"]
     if _exc(mec):
         return "minimum_enclosing_circle raised %s" % (mec,)
+    if m["mec_vec"] is not None and m["mec_vec"] != m["mec"]:
+        return "vectorised bookkeeping model differs from the per-object model: %s vs %s" % (str(m["mec_vec"])[:200], str(m["mec"])[:200])
     for k, r in enumerate(m["mec"]):
         cy, cx, rad = mec["cy"][k], mec["cx"][k], mec["r"][k]
         if r[0] == 0:
@@ -444,7 +689,9 @@ def compare(case, out, m):
                 k, fer["min"][k], fer["max"][k], emin, emax)
     if _exc(out["fill"]):
         return "fill_convex_hulls raised %s" % (out["fill"],)
-    if out["fill"] != m["fill"]:
+    if out.get("twice_differs"):
+        return "a second identical call returned something else for: %s" % out["twice_differs"]
+    if out["fill"] != "not-run" and out["fill"] != m["fill"]:
         a, b = out["fill"], m["fill"]
         d = next((q for q in range(min(len(a), len(b))) if a[q] != b[q]), min(len(a), len(b)))
         return "fill_convex_hulls differs from the scan-line model at row %d: implementation %s model %s (lengths %d, %d)" % (
@@ -574,7 +821,9 @@ def _check_feret_fill(ctx, cases, outs, res):
                 break
             mn_jobs.append((k, q, [pix, h, [a, b], [w.numerator, w.denominator]]))
             lo_jobs.append((k, q, [pix, _cones(pix, h) if w > 0 else [], [w.numerator, w.denominator]]))
-        if res[k] is None:
+        if res[k] is None and out.get("twice_differs"):
+            res[k] = "calling %s twice on the same arrays gives two different results" % out["twice_differs"]
+        if res[k] is None and out["fill"] != "not-run":
             rows = sorted(out["fill"], key=lambda t: (t[2], t[0], t[1]))
             fl_jobs.append((k, [[[l, h] for (l, _, h) in objs if h], rows]))
     if mx_jobs:
@@ -634,12 +883,33 @@ def search_cases(ctx, rnd):
 
 
 def shrink_candidates(case):
+    if "ijv" in case:
+        rows = case["ijv"]
+        for k in range(len(rows)):
+            c2 = dict(case)
+            c2["ijv"] = rows[:k] + rows[k + 1:]
+            c2["indexes"] = [l for l in case["indexes"] if any(r[2] == l for r in c2["ijv"])] or case["indexes"]
+            c2["rot"] = case["rot"][:len(c2["indexes"])]
+            if c2["ijv"]:
+                yield c2
+        for key in ("idx_kind", "hdtype", "hlayout"):
+            if key in case:
+                c2 = dict(case)
+                del c2[key]
+                yield c2
+        return
     lab = np.array(case["labels"], int)
     idx = case["indexes"]
+    if any(k in case for k in ("ldtype", "llayout", "idx_kind", "hdtype", "hlayout")):
+        yield {"labels": case["labels"], "indexes": idx, "order": case["order"], "rot": case["rot"]}
 
     def mk(lab2, idx2, order=None):
-        return {"labels": lab2.tolist(), "indexes": list(idx2), "order": order or case["order"],
-                "rot": case["rot"][:len(idx2)] + [0] * max(0, len(idx2) - len(case["rot"]))}
+        c2 = {"labels": lab2.tolist(), "indexes": list(idx2), "order": order or case["order"],
+              "rot": case["rot"][:len(idx2)] + [0] * max(0, len(idx2) - len(case["rot"]))}
+        for key in ("ldtype", "llayout", "idx_kind", "hdtype", "hlayout"):
+            if key in case:
+                c2[key] = case[key]
+        return c2
     if len(idx) > 1:
         h = len(idx) // 2
         yield mk(lab, idx[:h])
